@@ -18,6 +18,7 @@ CONSTANTS
   MaxEvents,   \* 0..2 event cells per security
   DistGrid,    \* granularity with which an event amount may be spread over acquisition days
   MaxCells,    \* at most this many non-empty buy/sell cells per security (0 = unlimited)
+  CheapDay,    \* 0, or the day slot whose purchases cost 1 a share (lots of very different unit cost)
   CoveredOnly, \* TRUE: the generator only proposes sales the holding covers (used by the random-walk tier,
                \* where unconstrained ledgers almost always fail at their first sale)
   Emit         \* TRUE: print a REPLAY line for every terminated behaviour
@@ -37,7 +38,7 @@ Placements(kinds, k) ==
                  x \in 1..MC_N, y \in 1..MC_N, r \in kinds, r2 \in kinds}
   IN {none} \cup (IF k >= 1 THEN one ELSE {}) \cup (IF k >= 2 THEN two ELSE {})
 
-MkCell(s, d, g, sp, ev) == GenCellOf(SecShift(s) - 1, d, g[d].bq, g[d].sq, QDen, sp[d], ev[d])
+MkCell(s, d, g, sp, ev) == GenCellOfC(SecShift(s) - 1, d, g[d].bq, g[d].sq, QDen, sp[d], ev[d], CheapDay)
 
 MkSec(s, g, sp, ev) == [d \in 1..MC_N |-> MkCell(s, d, g, sp, ev)]
 
